@@ -156,7 +156,12 @@ def run(ctx):
             pk = [k for k in range(start, end) if c.ops[k].startswith("dec pkt")]
             return pk[-2], pk[-1]
         a = td(pos[0], pos[1]); b = td(pos[1], pos[2]); d = td(pos[2], pos[3]); e = td(pos[3], pos[4] if len(pos) > 4 else len(c.ops))
-        chk_cases.append(Case(["chk c17 %s %s | %s" % (c.ops[a[0]][8:], c.ops[a[1]][8:], " | ".join([i[a[0]], i[a[1]], i[b[0]], i[b[1]], i[d[0]], i[d[1]], i[e[0]], i[e[1]]]))]))
+        lines = ["chk c17 %s %s | %s" % (c.ops[a[0]][8:], c.ops[a[1]][8:], " | ".join([i[a[0]], i[a[1]], i[b[0]], i[b[1]], i[d[0]], i[d[1]], i[e[0]], i[e[1]]]))]
+        if len(pos) > 4:
+            # the collector with the UNSET mode is judged as the strict one
+            a2 = td(pos[4], len(c.ops))
+            lines.append("chk c17 %s %s | %s" % (c.ops[a[0]][8:], c.ops[a[1]][8:], " | ".join([i[a2[0]], i[a2[1]], i[b[0]], i[b[1]], i[d[0]], i[d[1]], i[e[0]], i[e[1]]])))
+        chk_cases.append(Case(lines))
     shards = ctx.cores if ctx.tier == "thorough" else min(8, ctx.cores)
     verdicts = exec_cases(ctx.driver, chk_cases, shards=shards)
     dist = G.Counter()
@@ -175,6 +180,8 @@ def run(ctx):
                 break
         if ci < len(cases):
             v = verdicts[ci][0]
+            if v == "holds" and len(verdicts[ci]) > 1 and verdicts[ci][1] != "holds":
+                v = verdicts[ci][1] + " (decoding mode left unset)"
             dist.add("verdict:" + v.split(" ")[0])
             if v != "holds":
                 failures.append({"signature": "C17:%s:%s" % (c.label, " ".join(v.split(" ")[:2])), "ops": list(c.ops), "impl": " | ".join(impl[ci])[:600],
